@@ -195,7 +195,7 @@ class C16(Check):
     TRACE_FILES = ('io.py', 'lib/asynconn.py')
     TIERS = {'quick': {'runs': 3000, 'wall': 80}, 'thorough': {'runs': 300000, 'wall': 800}}
     MAX_VIRTUAL = 4000
-    RULE = ('case = line- or byte-oriented communicator + 2..4 caller tasks x <= 6 operations (communicate, writeline, '
+    RULE = ('[device faults incl. garbage in the segment of the reply and fragment-then-silence] ' 'case = line- or byte-oriented communicator + 2..4 caller tasks x <= 6 operations (communicate, writeline, '
             'multicomm with delays) + poller + device script (reply delays up to beyond the time-out, garbage, silence, '
             'close before/inside/after a reply, refused reconnects) + network chunking; distinct = different (case '
             'digest, schedule digest); non-trivial = >= 2 callers overlapped in time and >= 1 scheduling decision '
